@@ -266,6 +266,75 @@ pub fn run(tier: Tier) -> i32 {
     ] {
         work.push(("catalog".into(), site.into(), setup.clone(), sql.into()));
     }
+    // (g) set operations with several columns: every column is unified on its own, whatever the direction of
+    // the casts the other columns need. For each unordered type pair whose one-column unions succeed, the
+    // two- and three-column unions with opposing cast directions must succeed with the same column types.
+    let tys = sql_types();
+    let mut multi: Vec<(String, [String; 3], [String; 2])> = Vec::new();
+    for (i, a) in tys.iter().enumerate() {
+        for b in tys.iter().skip(i + 1) {
+            let (aa, bb) = (fnreg::alphabet(*a, true).unwrap(), fnreg::alphabet(*b, true).unwrap());
+            let (x, y) = (aa[1].clone(), bb[1].clone());
+            multi.push((
+                format!("{a},{b}"),
+                [
+                    format!("SELECT {x} AS c1, {y} AS c2 UNION ALL SELECT {y}, {x}"),
+                    format!("SELECT {y} AS c1, {x} AS c2, {x} AS c3 UNION SELECT {x}, {y}, {x}"),
+                    format!("SELECT c1, c2 FROM (SELECT {x} AS c1, {y} AS c2) l UNION ALL SELECT c1, c2 FROM (SELECT {y} AS c1, {x} AS c2) r WHERE false"),
+                ],
+                [format!("SELECT {x} AS c UNION ALL SELECT {y}"), format!("SELECT {y} AS c UNION ALL SELECT {x}")],
+            ));
+        }
+    }
+    let multi_res = par_run(multi.len(), Driver::new, |d, i| {
+        let mut res = Res::default();
+        if d.dirty {
+            *d = Driver::new();
+        }
+        let (site, stmts, singles) = &multi[i];
+        let s1 = d.q(&singles[0]);
+        let s2 = d.q(&singles[1]);
+        res.evals += 2;
+        let (Outcome::Rows(r1), Outcome::Rows(r2)) = (&s1, &s2) else {
+            res.outcomes.insert("pair-not-unifiable".into());
+            return res;
+        };
+        if r1.types != r2.types {
+            res.fails.push((format!("C18|union-type-depends-on-branch-order|{site}"), Replay { check: "C18".into(), steps: vec![(0, singles[0].clone()), (0, singles[1].clone())], expected: format!("{:?}", r1.types), observed: format!("{:?}", r2.types), ..Default::default() }));
+            return res;
+        }
+        let t = r1.types[0].clone();
+        // the third column of the three-column form has the same type in both branches: its own type
+        let own = match d.q(&singles[0].split(" UNION ALL ").next().unwrap_or("").to_string()) {
+            Outcome::Rows(r) => r.types[0].clone(),
+            _ => t.clone(),
+        };
+        for (k, sql) in stmts.iter().enumerate() {
+            let o = d.q(sql);
+            res.evals += 1;
+            match &o {
+                Outcome::Rows(r) => {
+                    let want = if k == 1 { vec![t.clone(), t.clone(), own.clone()] } else { vec![t.clone(); 2] };
+                    if r.types != want || r.batch_types.iter().any(|bt| bt != &want) {
+                        res.fails.push((format!("C18|union-multi-column:type-differs|{site}"), Replay { check: "C18".into(), steps: vec![(0, sql.clone())], expected: format!("{want:?} (each column unified like the one-column union)"), observed: format!("announced {:?}, batches {:?}", r.types, r.batch_types), ..Default::default() }));
+                    } else {
+                        res.nontrivial += 1;
+                        res.outcomes.insert("agree".into());
+                    }
+                }
+                Outcome::Error { msg, .. } => {
+                    res.fails.push((format!("C18|union-multi-column:error:{}|{site}", msg_template(msg)), Replay { check: "C18".into(), steps: vec![(0, sql.clone())], expected: format!("rows of types {t} (both one-column unions of these types succeed)"), observed: o.brief(), ..Default::default() }));
+                }
+                o2 => {
+                    res.outcomes.insert(format!("not-a-schema-question:{}", outcome_fail_class(o2).unwrap_or_default().split(':').next().unwrap_or("")));
+                }
+            }
+            if d.dirty {
+                *d = Driver::new();
+            }
+        }
+        res
+    });
     let results = par_run(work.len(), Driver::new, |d, i| {
         let mut res = Res::default();
         let (family, site, setup, sql) = &work[i];
@@ -298,6 +367,8 @@ pub fn run(tier: Tier) -> i32 {
     });
     let (mut evals, mut nontriv) = (0u64, 0u64);
     let mut outcomes = BTreeSet::new();
+    let mut results = results;
+    results.extend(multi_res);
     for rr in results {
         evals += rr.evals;
         nontriv += rr.nontrivial;
@@ -309,7 +380,7 @@ pub fn run(tier: Tier) -> i32 {
     let fams: BTreeSet<String> = work.iter().map(|w| w.0.clone()).collect();
     rep.cov("evaluations", json!(evals));
     rep.cov("distinct_nontrivial", json!(nontriv));
-    rep.cov("rule", json!("every statement of: the algebra terms of depth <= 2 (C01), every scalar signature on two alphabet tuples in literal and column context, every unary aggregate plain and grouped, UNION [ALL] (and CASE / coalesce) over all ordered pairs of 18 types, decimal arithmetic over 12x12 (precision, scale) pairs in literal and column context, catalog / table-function / DML / utility statements. Oracle: DESCRIBE <stmt> = QueryResult.output_schema (names and types) = Array::datatype() of every returned batch = the variant of every produced value including decimal precision/scale and timestamp unit; the same statement bound twice and in a fresh engine announces the same types. non-trivial = statements for which all views agreed"));
+    rep.cov("rule", json!("every statement of: the algebra terms of depth <= 2 (C01), every scalar signature on two alphabet tuples in literal and column context, every unary aggregate plain and grouped, UNION [ALL] (and CASE / coalesce) over all ordered pairs of 18 types, two- and three-column unions with opposing cast directions over all unordered type pairs (each column must be unified like the one-column union), decimal arithmetic over 12x12 (precision, scale) pairs in literal and column context, catalog / table-function / DML / utility statements. Oracle: DESCRIBE <stmt> = QueryResult.output_schema (names and types) = Array::datatype() of every returned batch = the variant of every produced value including decimal precision/scale and timestamp unit; the same statement bound twice and in a fresh engine announces the same types. non-trivial = statements for which all views agreed"));
     rep.cov("statements", json!(work.len()));
     rep.cov("families", json!(fams.into_iter().collect::<Vec<_>>()));
     rep.cov("distinct_outcomes", json!(outcomes.into_iter().collect::<Vec<_>>()));
